@@ -99,6 +99,25 @@ var whitelist = []fnSpec{
 	// the shipped FastCodec structs (base/k-base.go): goto to trailing error labels, fields stored
 	// through the pointer receiver, thrift.Binary.Skip as an external function
 	{"base", "Base", "FastRead"}, {"base", "BaseResp", "FastRead"},
+	// phase 3 (ext3.go): thrift.ApplicationException (exception.go): switch without a tag, b[off:]
+	// handed to the in-place writers, a call of another method of the same receiver
+	{"thrift", "ApplicationException", "BLength"}, {"thrift", "ApplicationException", "FastRead"},
+	{"thrift", "ApplicationException", "FastWrite"}, {"thrift", "ApplicationException", "FastWriteNocopy"},
+	// the no-copy writers (binary.go) over an abstract NocopyWriter with a nil flag, and the generated
+	// writers of base/k-base.go: `for k, v := range p.Extra` with the enumeration order as a parameter
+	{"thrift", "BinaryProtocol", "WriteBinaryNocopy"}, {"thrift", "BinaryProtocol", "WriteStringNocopy"},
+	{"base", "Base", "BLength"}, {"base", "Base", "FastWriteNocopy"}, {"base", "Base", "FastWrite"},
+	{"base", "BaseResp", "BLength"}, {"base", "BaseResp", "FastWriteNocopy"}, {"base", "BaseResp", "FastWrite"},
+	// the ttheader encoder over an abstract bufiox.Writer (ext3b.go): Malloc'ed windows, a struct
+	// parameter, two map range statements, v, ok := m[k], range over a []byte
+	{"ttheader", "", "WriteByte"}, {"ttheader", "", "WriteUint16"}, {"ttheader", "", "WriteUint32"},
+	{"ttheader", "", "WriteString"}, {"ttheader", "", "WriteString2BLen"},
+	{"ttheader", "", "writeKVInfo"}, {"ttheader", "", "Encode"},
+	// fastcodec.go over an abstract FastCodec (BLength / FastWriteNocopy / FastRead as parameters;
+	// FastWriteNocopy stores into its buffer: mutatingMethods) and dirtmake.Bytes as a content oracle
+	{"thrift", "", "FastMarshal"}, {"thrift", "", "FastUnmarshal"}, {"thrift", "", "MarshalFastMsg"},
+	// container/strmap: read-only views of the generic StrMap[V] (ext3c.go)
+	{"strmap", "StrMap", "Len"}, {"strmap", "StrMap", "Item"}, {"strmap", "StrMap", "Get"},
 }
 
 // Coq names that differ from g_<pkg>_<Func> (methods of several types with the same name)
@@ -106,13 +125,23 @@ var coqNameOf = map[fnSpec]string{
 	{"thrift", "SkipDecoderTpl", "Skip"}: "g_thrift_SkipDecoderTpl_Skip",
 	{"thrift", "BufferReader", "next"}:   "g_thrift_BufferReader_next", {"thrift", "BufferReader", "skipn"}: "g_thrift_BufferReader_skipn",
 	{"thrift", "BufferReader", "ReadI32"}: "g_thrift_BufferReader_ReadI32", {"thrift", "BufferReader", "skipstr"}: "g_thrift_BufferReader_skipstr",
-	{"thrift", "BufferReader", "ReadFieldBegin"}: "g_thrift_BufferReader_ReadFieldBegin",
-	{"thrift", "BufferReader", "ReadMapBegin"}:   "g_thrift_BufferReader_ReadMapBegin",
-	{"thrift", "BufferReader", "ReadListBegin"}:  "g_thrift_BufferReader_ReadListBegin",
-	{"thrift", "BufferReader", "skipType"}:       "g_thrift_BufferReader_skipType",
-	{"thrift", "BufferReader", "Skip"}:           "g_thrift_BufferReader_Skip",
-	{"base", "Base", "FastRead"}:                 "g_base_Base_FastRead",
-	{"base", "BaseResp", "FastRead"}:             "g_base_BaseResp_FastRead",
+	{"thrift", "BufferReader", "ReadFieldBegin"}:          "g_thrift_BufferReader_ReadFieldBegin",
+	{"thrift", "BufferReader", "ReadMapBegin"}:            "g_thrift_BufferReader_ReadMapBegin",
+	{"thrift", "BufferReader", "ReadListBegin"}:           "g_thrift_BufferReader_ReadListBegin",
+	{"thrift", "BufferReader", "skipType"}:                "g_thrift_BufferReader_skipType",
+	{"thrift", "BufferReader", "Skip"}:                    "g_thrift_BufferReader_Skip",
+	{"base", "Base", "FastRead"}:                          "g_base_Base_FastRead",
+	{"base", "BaseResp", "FastRead"}:                      "g_base_BaseResp_FastRead",
+	{"thrift", "ApplicationException", "BLength"}:         "g_thrift_ApplicationException_BLength",
+	{"thrift", "ApplicationException", "FastRead"}:        "g_thrift_ApplicationException_FastRead",
+	{"thrift", "ApplicationException", "FastWrite"}:       "g_thrift_ApplicationException_FastWrite",
+	{"thrift", "ApplicationException", "FastWriteNocopy"}: "g_thrift_ApplicationException_FastWriteNocopy",
+	{"base", "Base", "BLength"}:                           "g_base_Base_BLength",
+	{"base", "Base", "FastWriteNocopy"}:                   "g_base_Base_FastWriteNocopy",
+	{"base", "Base", "FastWrite"}:                         "g_base_Base_FastWrite",
+	{"base", "BaseResp", "BLength"}:                       "g_base_BaseResp_BLength",
+	{"base", "BaseResp", "FastWriteNocopy"}:               "g_base_BaseResp_FastWriteNocopy",
+	{"base", "BaseResp", "FastWrite"}:                     "g_base_BaseResp_FastWrite",
 }
 
 // library calls that are given a meaning (everything else fails)
@@ -176,6 +205,15 @@ type fnInfo struct {
 	globals               []*types.Var    // package-level scalar variables read (transitively), leading parameters
 	errKeys               map[string]bool // error values (ecode keys) the function or its callees can produce
 	errCmps               []errCmp        // comparisons err == <error variable> to be validated at the end
+	// phase 3 (ext3.go)
+	hasRange   bool                    // contains a range statement over a map
+	nilable    map[*types.Var]bool     // abstract objects (interface-typed parameters) that are compared with nil: they get a nil flag
+	recvRO     bool                    // the receiver is a read-only view (ext3c.go): some fields have no binder
+	typeParams []*types.TypeParam      // value type parameters of the receiver's type: (T_V : Type) (z_V : T_V)
+	elemView   map[*types.Var]bool     // local variables e := &x[i] that are copies of an element of a read-only slice
+	dirtOwned  map[*types.Var]bool     // local buffers x := dirtmake.Bytes(n, n)
+	regionOf   map[*types.Var]*absRoot // local []byte variables that are windows into an abstract object's memory
+	oracles    []oracle                // the enumeration orders of its map range statements (and of its callees'): trailing parameters
 }
 
 type errCmp struct {
@@ -206,14 +244,17 @@ type fctx struct {
 	nestedMut bool          // a call that stores into a parameter occurs below the statement's top-level call
 	topCall   *ast.CallExpr // the call that IS the statement / its only right-hand side, if any
 
-	vars      map[string]*cvar         // every Coq variable name that stands for (a part of) a Go variable
-	loops     []*loopFrame             // enclosing for statements, innermost last
-	brk       []func(depth int) string // what `break` means here, innermost last
-	conts     []func(depth int) string // what `continue` means here, innermost last
-	endK      func(depth int) string   // what follows the last statement of the function
-	exiting   int                      // translating the target of a goto: control does not come back into the loops
-	nloop     int
-	loopCache map[*ast.BlockStmt]*loopFrame // a for statement reached along several paths is one Fixpoint
+	vars       map[string]*cvar         // every Coq variable name that stands for (a part of) a Go variable
+	loops      []*loopFrame             // enclosing for statements, innermost last
+	brk        []func(depth int) string // what `break` means here, innermost last
+	conts      []func(depth int) string // what `continue` means here, innermost last
+	endK       func(depth int) string   // what follows the last statement of the function
+	exiting    int                      // translating the target of a goto: control does not come back into the loops
+	lenOfSlice bool                     // translating the operand of len(...): p[a:] of a stored-into parameter is allowed
+	nloop      int
+	loopCache  map[*ast.BlockStmt]*loopFrame // a for statement reached along several paths is one Fixpoint
+	callOrds   map[*ast.CallExpr][]string    // the order oracles handed to a callee, per call site
+	dirtCall   *ast.CallExpr                 // the one allocation of uninitialised memory of the function
 }
 
 func (c *fctx) failf(n ast.Node, format string, a ...interface{}) {
@@ -319,6 +360,12 @@ func (c *fctx) coqType(n ast.Node, t types.Type) string {
 	if _, _, ok := intTypeInfo(t); ok {
 		return "Z"
 	}
+	if tp, ok := valueTypeParam(t); ok {
+		return "T_" + tp.Obj().Name()
+	}
+	if ct, ok := roSliceType(t); ok {
+		return ct
+	}
 	if k, v, ok := mapKV(t); ok {
 		_, _, ki := intTypeInfo(k)
 		if !ki && !isString(k) {
@@ -334,6 +381,12 @@ func (c *fctx) coqType(n ast.Node, t types.Type) string {
 }
 
 func (c *fctx) zero(n ast.Node, t types.Type) string {
+	if tp, ok := valueTypeParam(t); ok {
+		return "z_" + tp.Obj().Name()
+	}
+	if ct, ok := roSliceType(t); ok {
+		return "(nil : " + strings.Trim(ct, "()") + ")"
+	}
 	switch ct := c.coqType(n, t); ct {
 	case "gerror":
 		return "gnil"
@@ -537,6 +590,12 @@ func (c *fctx) identTerm(id *ast.Ident) string {
 		if _, isStruct := structFields(o.Type()); isStruct {
 			c.failf(id, "struct variable %s used as a whole (only its fields are translated)", id.Name)
 		}
+		if c.f.elemView[o] {
+			c.failf(id, "%s is a view of a slice element: used as a value (only %s.f is translated)", id.Name, id.Name)
+		}
+		if c.f.regionOf[o] != nil {
+			c.failf(id, "%s is a window into an abstract object's memory: used as a value (only x[i] = v, PutUintK(x[a:b], v), y := x[a:b], len(x), return x are translated)", id.Name)
+		}
 		c.coqType(id, o.Type())
 		if c.isThreadedVar(o) {
 			c.readMut = true
@@ -673,6 +732,9 @@ func (c *fctx) expr(e ast.Expr) (pre []string, term string) {
 			}
 		}
 		if name, ok := c.fieldVar(x); ok {
+			if c.isRecv(x.X) {
+				c.readMut = true // a method of the same receiver called in the same expression may assign the field
+			}
 			return c.recvCheck(x.X), c.readVar(name)
 		}
 		c.failf(e, "selector expression %s", types.ExprString(e))
@@ -712,6 +774,15 @@ func (c *fctx) expr(e ast.Expr) (pre []string, term string) {
 			p2, i := c.exprAs(x.Index, k)
 			return append(p1, p2...), fmt.Sprintf("(gmap_get %s %s %s %s)", c.keyEqb(e, k), m, i, c.zero(e, v))
 		}
+		if _, ok := roSliceType(c.info.TypeOf(x.X)); ok {
+			if _, isStruct := structFields(c.info.TypeOf(x)); isStruct {
+				c.failf(e, "element of a slice of structs used as a whole (only e := &x[i] is translated)")
+			}
+			p1, a := c.expr(x.X)
+			p2, i := c.expr(x.Index)
+			t := c.fresh()
+			return append(append(p1, p2...), fmt.Sprintf("do %s <- gelem %s %s;", t, a, i)), t
+		}
 		if !isBytesLike(c.info.TypeOf(x.X)) {
 			c.failf(e, "index expression on %s", c.info.TypeOf(x.X))
 		}
@@ -724,9 +795,13 @@ func (c *fctx) expr(e ast.Expr) (pre []string, term string) {
 		if !isBytesLike(c.info.TypeOf(x.X)) || x.Slice3 {
 			c.failf(e, "slice expression on %s", c.info.TypeOf(x.X))
 		}
-		if c.isMutatedParam(x.X) {
+		if c.isRegionExpr(x.X) {
+			c.failf(e, "a window into an abstract object's memory used as a value")
+		}
+		if c.isMutatedParam(x.X) && !c.lenOfSlice {
 			c.failf(e, "slice of a []byte parameter that is also stored into, outside a store destination (aliasing is not modelled)")
 		}
+		c.lenOfSlice = false
 		p, a := c.expr(x.X)
 		pre = p
 		t := c.fresh()
@@ -749,6 +824,9 @@ func (c *fctx) expr(e ast.Expr) (pre []string, term string) {
 		}
 		return pre, t
 	case *ast.CallExpr:
+		if isRegionMethod(c.calleeFunc(x)) {
+			c.failf(e, "the window returned by %s used as a value (assign it to a variable)", types.ExprString(x.Fun))
+		}
 		pre, terms := c.call(x)
 		if len(terms) != 1 {
 			c.failf(e, "call yielding %d values used as a single value", len(terms))
@@ -789,6 +867,9 @@ func (c *fctx) binary(x *ast.BinaryExpr) (pre []string, term string) {
 				return "(negb " + s + ")"
 			}
 			return s
+		}
+		if t, ok := c.nilTest(x); ok {
+			return nil, neg(t)
 		}
 		// err == nil / err != nil
 		if isErrorIface(lt) || isErrorIface(rt) {
@@ -940,10 +1021,26 @@ func (c *fctx) call(x *ast.CallExpr) (pre []string, terms []string) {
 		if _, isB := c.info.Uses[id].(*types.Builtin); isB {
 			switch id.Name {
 			case "len":
+				if k, _, isMap := mapKV(c.info.TypeOf(x.Args[0])); isMap {
+					p, a := c.expr(x.Args[0])
+					return p, []string{"(gmap_len " + c.keyEqb(x, k) + " " + a + ")"}
+				}
+				if _, ok := roSliceType(c.info.TypeOf(x.Args[0])); ok {
+					p, a := c.expr(x.Args[0])
+					return p, []string{"(glen " + a + ")"}
+				}
 				if !isBytesLike(c.info.TypeOf(x.Args[0])) {
 					c.failf(x, "len of %s", c.info.TypeOf(x.Args[0]))
 				}
+				if c.isRegionExpr(x.Args[0]) {
+					p, w, _ := c.regionExpr(x.Args[0])
+					return p, []string{"(gregion_len " + w + ")"}
+				}
+				// len(p[a:]) keeps no reference to p: allowed for a parameter that is stored into
+				saved := c.lenOfSlice
+				c.lenOfSlice = true
 				p, a := c.expr(x.Args[0])
+				c.lenOfSlice = saved
 				return p, []string{"(glen " + a + ")"}
 			case "append":
 				if !isByteSlice(c.info.TypeOf(x.Args[0])) {
@@ -1002,6 +1099,9 @@ func (c *fctx) call(x *ast.CallExpr) (pre []string, terms []string) {
 		p, a := c.expr(x.Args[0])
 		t := c.fresh()
 		return append(p, fmt.Sprintf("do %s <- gbe_load %d %s;", t, loadLib[full], a)), []string{t}
+	case putLib[full] != 0 && c.isRegionExpr(x.Args[0]):
+		c.noteMut(x)
+		return c.regionPut(x, putLib[full]), nil
 	case putLib[full] != 0:
 		c.noteMut(x)
 		p1, name, off := c.storeDest(x.Args[0])
@@ -1107,6 +1207,11 @@ func (c *fctx) lhsName(e ast.Expr) string {
 	case *ast.StarExpr: // *p = ... for a pointer parameter p
 		return c.assignVar(c.derefName(x))
 	case *ast.SelectorExpr: // s.f = ... for a local struct variable s
+		if bid, ok := ast.Unparen(x.X).(*ast.Ident); ok {
+			if bv, ok := c.info.Uses[bid].(*types.Var); ok && c.f.elemView[bv] {
+				c.failf(e, "store through %s, a view of a slice element (the slice is read-only)", bid.Name)
+			}
+		}
 		if name, ok := c.fieldVar(x); ok {
 			return c.assignVar(name)
 		}
@@ -1225,7 +1330,18 @@ func (c *fctx) block(depth int, list []ast.Stmt, k func(depth int) string) strin
 			}
 		}
 		c.topCall = soleCall(s.Results)
-		pre, terms := c.exprsAs(s.Results, func(i int) types.Type { return c.f.results[i].Type() })
+		var pre, terms []string
+		for i, r := range s.Results {
+			var p []string
+			var t string
+			if c.f.regionOf[c.f.results[i]] != nil {
+				p, t, _ = c.regionExpr(r)
+			} else {
+				p, t = c.exprAs(r, c.f.results[i].Type())
+			}
+			pre = append(pre, p...)
+			terms = append(terms, t)
+		}
 		c.checkOrder(s)
 		return c.lines(depth, pre) + ind(depth) + c.retTerms(terms) + "\n"
 	case *ast.IfStmt:
@@ -1259,6 +1375,8 @@ func (c *fctx) block(depth int, list []ast.Stmt, k func(depth int) string) strin
 		return c.block(depth, []ast.Stmt{s.Stmt}, rest)
 	case *ast.ForStmt:
 		return c.forStmt(depth, s, rest)
+	case *ast.RangeStmt:
+		return c.rangeStmt(depth, s, rest)
 	case *ast.BranchStmt:
 		return c.branchStmt(depth, s)
 	case *ast.DeclStmt:
@@ -1281,6 +1399,16 @@ func (c *fctx) block(depth int, list []ast.Stmt, k func(depth int) string) strin
 					continue // a value without state
 				}
 				val := c.zero(n, obj.Type())
+				if c.f.regionOf[obj] != nil {
+					val = "gregion_nil"
+					if len(vs.Values) != 0 {
+						p, t, _ := c.regionExpr(vs.Values[i])
+						pre = append(pre, p...)
+						val = t
+					}
+					pre = append(pre, fmt.Sprintf("let %s := %s in", c.nameOf(obj), val))
+					continue
+				}
 				if len(vs.Values) != 0 {
 					if _, _, isMap := mapKV(obj.Type()); isMap {
 						if y, ok := ast.Unparen(vs.Values[i]).(*ast.Ident); ok {
@@ -1357,6 +1485,23 @@ func (c *fctx) assign(s *ast.AssignStmt) []string {
 		name := c.lhsName(s.Lhs[0])
 		return append(pre, c.bindLine(s.Lhs[0], name, term))
 	}
+	if pre, ok := c.commaOk(s); ok {
+		return pre
+	}
+	if pre, ok := c.elemViewAssign(s); ok {
+		return pre
+	}
+	if len(s.Lhs) == 1 && len(s.Rhs) == 1 {
+		// x[i] = e for a window x
+		if ix, ok := ast.Unparen(s.Lhs[0]).(*ast.IndexExpr); ok && c.isRegionExpr(ix.X) && s.Tok == token.ASSIGN {
+			return c.regionIndexStore(s, ix)
+		}
+		// y = x[a:b] / y := x for windows
+		if v, r := c.regionVar(s.Lhs[0]); r != nil {
+			pre, t, _ := c.regionExpr(s.Rhs[0])
+			return append(pre, fmt.Sprintf("let %s := %s in", c.assignVar(c.nameOf(v)), t))
+		}
+	}
 	// store: buf[i] = e
 	if len(s.Lhs) == 1 && len(s.Rhs) == 1 {
 		if ix, ok := ast.Unparen(s.Lhs[0]).(*ast.IndexExpr); ok {
@@ -1369,6 +1514,9 @@ func (c *fctx) assign(s *ast.AssignStmt) []string {
 					n, isField := c.fieldVar(sel)
 					if !isField {
 						c.failf(s, "indexed assignment to %s", types.ExprString(ix.X))
+					}
+					if bid, ok := ast.Unparen(sel.X).(*ast.Ident); ok && c.f.isStructParam(c.info.Uses[bid]) {
+						c.failf(s, "store into a map field of the struct parameter %s (the caller's map would change)", bid.Name)
 					}
 					mname, chk = n, c.recvCheck(sel.X)
 				} else {
@@ -1404,6 +1552,13 @@ func (c *fctx) assign(s *ast.AssignStmt) []string {
 		call, ok := s.Rhs[0].(*ast.CallExpr)
 		if !ok {
 			c.failf(s, "multi-value assignment from %T", s.Rhs[0])
+		}
+		if isRegionMethod(c.calleeFunc(call)) {
+			if id, isId := ast.Unparen(s.Lhs[0]).(*ast.Ident); !isId || id.Name != "_" {
+				if _, r := c.regionVar(s.Lhs[0]); r == nil {
+					c.failf(s, "the window returned by %s must be assigned to a local []byte variable", types.ExprString(call.Fun))
+				}
+			}
 		}
 		pre, terms := c.call(call)
 		if len(terms) != len(s.Lhs) {
@@ -1465,7 +1620,7 @@ func (c *fctx) switchStmt(depth int, s *ast.SwitchStmt, rest func(int) string) s
 		return c.block(depth, []ast.Stmt{s.Init, &inner}, rest)
 	}
 	if s.Tag == nil {
-		c.failf(s, "switch without a tag")
+		return c.switchCond(depth, s, rest)
 	}
 	if _, _, ok := intTypeInfo(c.info.TypeOf(s.Tag)); !ok {
 		c.failf(s, "switch on %s", c.info.TypeOf(s.Tag))
@@ -1613,6 +1768,7 @@ func (t *tr) analyse(f *fnInfo, seen map[*fnInfo]bool) {
 					f.needsFuel = f.needsFuel || callee.needsFuel
 					f.needsRFuel = f.needsRFuel || callee.needsRFuel
 					t.mapAbstract(f, callee, x)
+					t.mapNilable(f, callee, x)
 					for _, e := range callee.externs {
 						f.addExtern(e)
 					}
@@ -1622,8 +1778,13 @@ func (t *tr) analyse(f *fnInfo, seen map[*fnInfo]bool) {
 					for j, m := range callee.mutated {
 						if m && j < len(x.Args) {
 							if i := paramIdx(x.Args[j]); i >= 0 {
-								if _, plain := ast.Unparen(x.Args[j]).(*ast.Ident); plain {
+								switch y := ast.Unparen(x.Args[j]).(type) {
+								case *ast.Ident:
 									f.mutated[i] = true
+								case *ast.SliceExpr: // p[a:] handed to a callee that stores into it
+									if y.High == nil && y.Max == nil && isByteSlice(f.params[i].Type()) {
+										f.mutated[i] = true
+									}
 								}
 							}
 						}
@@ -1650,7 +1811,7 @@ func (t *tr) translate(f *fnInfo) {
 	}
 	f.state = 1
 	c := &fctx{t: t, f: f, info: f.pkg.TypesInfo, names: map[types.Object]string{}, used: map[string]bool{},
-		vars: map[string]*cvar{}, loopCache: map[*ast.BlockStmt]*loopFrame{}}
+		vars: map[string]*cvar{}, loopCache: map[*ast.BlockStmt]*loopFrame{}, callOrds: map[*ast.CallExpr][]string{}}
 	defer func() {
 		if r := recover(); r != nil {
 			e, ok := r.(trErr)
@@ -1714,7 +1875,19 @@ func (t *tr) translate(f *fnInfo) {
 			}
 			continue
 		}
+		if fs, isStruct := structFields(p.Type()); isStruct {
+			if !structParamOK(p.Type()) {
+				c.failf(f.decl, "parameter %s of the struct type %s with a field of an untranslatable type", p.Name(), p.Type())
+			}
+			for _, fv := range fs {
+				addBinder(c.fieldName(p, fv), c.coqType(f.decl, fv.Type()))
+			}
+			continue
+		}
 		n := c.nameOf(p)
+		if f.nilable[p] {
+			addBinder(c.absNilName(p), "bool")
+		}
 		addBinder(n, c.varCoqType(f.decl, c.vars[n]))
 	}
 	binders = append(binders, tail...)
@@ -1771,6 +1944,10 @@ func (t *tr) translate(f *fnInfo) {
 				}
 				continue
 			}
+			if f.regionOf[r] != nil {
+				pre = append(pre, fmt.Sprintf("let %s := gregion_nil in", c.nameOf(r)))
+				continue
+			}
 			pre = append(pre, fmt.Sprintf("let %s := %s in", c.nameOf(r), c.zero(f.decl, r.Type())))
 		}
 	}
@@ -1820,6 +1997,16 @@ func (t *tr) translate(f *fnInfo) {
 	if f.recvStruct != nil {
 		notes = append(notes, fmt.Sprintf("the receiver %s is a pointer to a struct: %s says whether it is nil (then every p.f panics), one binder per field; the final fields are the first components of the result", f.recvStruct.Name(), c.isnilName()))
 	}
+	for _, r := range f.abs {
+		if r.poke {
+			notes = append(notes, fmt.Sprintf("windows into the memory of %s (results of Malloc) are (start, length); stores through them are %s", r.v.Name(), r.pokeName()))
+		}
+	}
+	for _, p := range f.params {
+		if _, isStruct := structFields(p.Type()); isStruct {
+			notes = append(notes, fmt.Sprintf("the parameter %s is a struct (a copy): one binder per field", p.Name()))
+		}
+	}
 	for _, e := range f.externs {
 		notes = append(notes, fmt.Sprintf("%s is given: parameter %s", shortFull(e.FullName()), externalFns[e.FullName()]))
 	}
@@ -1855,7 +2042,19 @@ func (t *tr) translate(f *fnInfo) {
 	for _, n := range notes {
 		fmt.Fprintf(&sb, "(* %s *)\n", n)
 	}
+	for _, o := range f.oracles {
+		binders = append(binders, fmt.Sprintf("(%s : list %s)", o.name, o.typ))
+		fmt.Fprintf(&sb, "(* %s *)\n", o.note)
+	}
+	for _, p := range f.params {
+		if f.nilable[p] {
+			fmt.Fprintf(&sb, "(* %s is compared with nil: %s says whether it is the nil interface value (a method call panics then) *)\n", p.Name(), c.absNilName(p))
+		}
+	}
 	if f.selfRec {
+		if len(f.oracles) > 0 {
+			c.failf(f.decl, "a recursive function with map range statements")
+		}
 		fmt.Fprintf(&sb, "Fixpoint %s %s {struct rfuel} : res (%s) :=\n  match rfuel with\n  | O => Err gfuel\n  | S rfuel' =>\n%s\n  end.\n",
 			f.coqName, strings.Join(binders, " "), rt, strings.TrimRight(body, "\n"))
 	} else {
@@ -1921,8 +2120,8 @@ func header() string {
        the package only ever reads by indexing (checked over the whole package) is a leading
        parameter gv_<name> : list Z, indexed with a bounds check (GoSem.gtable).
    Phase 2 (loops, recursion, pointers, maps, abstract objects):
-     * a for statement (for init; cond; post {body}, for cond {body}, for {body}; no range, no
-       labels) is a standalone Fixpoint <func>_loop<k> on its own fuel lf, one unit per
+     * a for statement (for init; cond; post {body}, for cond {body}, for {body}; no labels;
+       range: phase 3) is a standalone Fixpoint <func>_loop<k> on its own fuel lf, one unit per
        iteration; its arguments are the variables declared outside that an iteration reads, then
        those it assigns (loop-carried); it returns inl (final carried values) when the condition
        fails or on break, inr (the function's result) on return.  Out of fuel is Err gfuel, the
@@ -1971,7 +2170,61 @@ func header() string {
      * fmt.Errorf / errors.New / thrift.NewProtocolException build a non-nil error identified by
        <pkg>.<func>#<constructor>[#k] (k-th call of that constructor in the function when there
        are several); their arguments must be free of effects, except err.Error(), which panics
-       when err is nil (GoSem.gerr_deref). *)
+       when err is nil (GoSem.gerr_deref).
+   Phase 3 (the write / encode side):
+     * switch { case c1: ... default: ... } without a tag: the conditions are evaluated top to
+       bottom until one holds (one condition per case, no fallthrough);
+     * f(p[a:], ...) for a []byte parameter p that is stored into and a callee f that stores into
+       its parameter: the slice expression is checked (gslice_from), the callee works on the tail
+       and cannot change its length, its final contents replace the tail of p (GoSem.gsplice);
+       no other argument of the call may mention p; len(p[a:]) is allowed (it keeps no reference);
+     * p.M(...) inside a method of the same pointer receiver p (a struct with fields): the callee
+       gets the nil flag and the current fields, its final fields are the caller's afterwards;
+       p == nil / p != nil is the flag;
+     * an interface-typed parameter w that is compared with nil (in the function or in a callee it
+       is handed to) gets a flag v_w_isnil before its state: w == nil is the flag, a method call
+       through the nil value panics (gptr_check); the literal nil handed to such a parameter is
+       (unit, methods that panic, true, tt);
+     * len(m) of a map is GoSem.gmap_len (the number of distinct keys);
+     * for k, v := range m over a map variable or a map field of the receiver, not inside another
+       loop, whose body does not assign the map: Go does not specify the enumeration order, so the
+       generated definition takes it as a TRAILING PARAMETER ord_<k> : list K, one per range
+       statement; the loop is a Fixpoint by structural recursion on that list (no fuel), v is
+       looked up in the map.  The definition does not test the oracle: the theorems assume
+       GoSem.gmap_order_ok m ord (each key of the map exactly once).  A caller of such a function
+       takes the callee's oracles as its own trailing parameters (one set per call site; not
+       inside loops);
+     * the []byte result of a method listed in regionMethods (bufiox.Writer.Malloc) is a WINDOW
+       into memory owned by the abstract object: GoSem.gregion = (start, length) in the object's
+       own address space; x[i] = v and binary.BigEndian.PutUintK(x[a:b], v) are the object's poke
+       operation, a parameter r_<obj>_poke : St -> Z -> bytes -> res St (position, bytes);
+       y := x[a:b] is a window again, len(x) its length, a window can be returned; every other
+       use (reading an element, copy, append, handing it to a callee) is refused, so a window
+       never stands for its contents.  Trusted: the window has the length the model of the method
+       says, stays valid for the rest of the call, and stores through it change nothing but the
+       object's state;
+     * a parameter of a struct type with fields of translated types is a copy: one binder per
+       field (stores into its map fields are refused);
+     * v, ok := m[k] is GoSem.gmap_find;
+     * for i, x := range s over a []byte value that the body does not store into: a Fixpoint by
+       structural recursion on the contents, i the index (strings — runes — are refused);
+     * dirtmake.Bytes(n, c) (uninitialised memory) is the function parameter x_dirtmake_Bytes, a
+       content oracle (externalFns; at most one allocation per function, none inside loops);
+       x := dirtmake.Bytes(n, n) is a local buffer like make([]byte, n) that may also be handed,
+       whole or as x[a:], to callees and methods that store into it, and be returned;
+     * a method of an abstract object listed in mutatingMethods (FastCodec.FastWriteNocopy) stores
+       into its []byte argument: its model returns the final contents of that argument after the
+       state; an interface-typed parameter of a method of an abstract object must be handed the
+       literal nil and is not a parameter of the model;
+     * READ-ONLY VIEWS (container/strmap Get / Len / Item): a method of *S that never assigns
+       through its receiver, for a struct S with slice fields: a field []T (T an integer type) is
+       a list Z, a field []E (E a struct of such fields) a list of tuples, x[i] is GoSem.gelem,
+       e := &x[i] / e = &x[j] is a COPY of the element (one variable per field; a store through e
+       is refused), a field of any other type (maphash.Seed) has no binder and may only be handed to
+       an external function listed with that argument dropped (maphash.String(m.seed, s) is the
+       parameter x_maphash_String : bytes -> res Z, "the hash function of this instance"); a type
+       parameter V with an empty constraint is a value type: binders (T_V : Type) (z_V : T_V), the
+       type and its zero value.  Sound because nothing in the function can change the slices. *)
 From GV Require Import Lib.Bytes Lib.Res Lib.GoSem.
 Open Scope Z_scope.
 `
